@@ -4,6 +4,7 @@ package main
 
 import (
 	"fmt"
+	"go/token"
 	"go/types"
 	"sort"
 	"strings"
@@ -24,6 +25,42 @@ func qaParamIndex(f *ssa.Function) int {
 // derivesFromTxParam: value is (a conversion of) a *sql.Tx parameter of its function.
 func derivesFromTxParam(v ssa.Value) bool {
 	v = unwrap(v)
+	if p := spilledParam(v); p != nil {
+		v = p
+	}
+	// inside a closure: the captured slot of the enclosing function's *sql.Tx parameter
+	if u, ok := v.(*ssa.UnOp); ok && u.Op == token.MUL {
+		if fv, ok := u.X.(*ssa.FreeVar); ok {
+			if al, _ := closureBinding(fv); al != nil && al.Referrers() != nil {
+				var val ssa.Value
+				n := 0
+				for _, rf := range *al.Referrers() {
+					if st, ok := rf.(*ssa.Store); ok && st.Addr == ssa.Value(al) {
+						n++
+						val = st.Val
+					}
+				}
+				if n == 1 {
+					return derivesFromTxParam(val)
+				}
+			}
+		}
+	}
+	if fv, ok := v.(*ssa.FreeVar); ok {
+		fn := fv.Parent()
+		for i, w := range fn.FreeVars {
+			if w != fv || fn.Parent() == nil {
+				continue
+			}
+			res := false
+			allInstrs(fn.Parent(), func(ins ssa.Instruction) {
+				if mc, ok := ins.(*ssa.MakeClosure); ok && mc.Fn == ssa.Value(fn) && i < len(mc.Bindings) {
+					res = derivesFromTxParam(mc.Bindings[i])
+				}
+			})
+			return res
+		}
+	}
 	p, ok := v.(*ssa.Parameter)
 	return ok && isSQLTxPtr(p.Type())
 }
